@@ -27,10 +27,12 @@ TRUSTED = [
     "asyncio.wait_for / shield / the thread pool behave as documented; status reads and writes are atomic under the harness lock",
 ]
 ASSUMPTIONS = ["run-functions poll job.status and return soon after seeing CANCELLING", "backends covered: serial, thread, process (process: fresh interpreter, log shared through a multiprocessing manager); loky is not"]
-RULE = ("timeouts {1,2}s x workers {1,2,4} x backend {serial, thread} x per-job behaviours (short jobs finishing before the deadline, long jobs polling at "
+RULE = ("timeouts {1,2}s x workers {1,2,4} x backend {serial, thread, process} x mode {search(timeout), search(max_evals, timeout) plain/strict, evaluator.timeout + gather, "
+        "evaluator.timeout + search(max_evals)} x per-job behaviours (returned value 1000+id or the falsy 0; short jobs finishing before the deadline, long jobs polling at "
         "different intervals until CANCELLING, jobs that keep working after seeing it); non-trivial = DONE and CANCELLED rows in one run")
 CLAUSE = {1: "illegal_status_sequence_or_stale_poll", 2: "no_terminal_status", 3: "row_count", 4: "row_status", 5: "value_not_kept",
-          6: "ran_past_deadline_without_cancelling", 7: "cancelling_then_done", 8: "activity_after_search_returned"}
+          6: "ran_past_deadline_without_cancelling", 7: "cancelling_then_done", 8: "activity_after_search_returned",
+          9: "submitted_long_after_expiry"}
 F_CHECK = 1401
 
 
@@ -57,6 +59,12 @@ def facts(repo):
         return srcfacts.fail_closed("JobStatus literal %r differs from the imported enum %r" % (lit, live)), {"job_status": live, "literal": lit}
     text = "Definition job_status : list (string * Z) := " + srcfacts.coq_list(["(%s, %d)" % (srcfacts.coq_string(n), v) for n, v in live]) + ".\n"
     return text, {"job_status": live, "literal_checked": lit is not None}
+
+
+def valof(plan, jid):
+    """value returned by job jid: 1000 + jid, or the falsy 0 when the behaviour says so (a legal objective / output)"""
+    b = plan[jid % len(plan)]
+    return 0 if len(b) > 4 and b[4] == "zero" else 1000 + jid
 
 
 def run_case(case):
@@ -87,14 +95,15 @@ def run_case(case):
         return s
 
     def ret(jid):
+        v = valof(plan, jid)
         with lock:
             trace.append([jid, 3, 0])
-            vals[jid] = 1000 + jid
-        return 1000 + jid
+            vals[jid] = v
+        return v
 
     async def run_async(job):
         jid = int(job.id.split(".")[1])
-        kind, dur, every, extra = behaviour(jid)
+        kind, dur, every, extra = behaviour(jid)[:4]
         with lock:
             trace.append([jid, 1, 0])
         t0 = time.time()
@@ -110,7 +119,7 @@ def run_case(case):
 
     def run_sync(job):
         jid = int(job.id.split(".")[1])
-        kind, dur, every, extra = behaviour(jid)
+        kind, dur, every, extra = behaviour(jid)[:4]
         with lock:
             trace.append([jid, 1, 0])
         t0 = time.time()
@@ -157,6 +166,10 @@ def run_case(case):
             timer.start()
             if mode == "search":
                 df = search.search(timeout=T)
+            elif mode == "evtimeout_search":
+                # the time budget is set on the evaluator, the search call has no `timeout` of its own
+                evaluator.timeout = T
+                df = search.search(max_evals=case["max_evals"])
             elif mode == "search_max":
                 df = search.search(max_evals=case["max_evals"], timeout=T)
             else:  # strict budget that may be hit in the middle of a batch
@@ -218,7 +231,10 @@ def check(case):
     return res
 
 
-def gen(count, backends):
+MODES = ["search", "evaluator", "search_strict", "evtimeout_search", "search_max"]
+
+
+def gen(count, pairs):
     def g(rng, tier):
         for i in range(count):
             T = rng.choice([1, 1, 2])
@@ -226,21 +242,25 @@ def gen(count, backends):
             for _ in range(rng.randint(2, 5)):
                 kind = rng.choice(["short", "long", "long"])
                 if kind == "short":
-                    plan.append(["short", rng.choice([0.15, 0.25, 0.4]), rng.choice([0.05, 0.1]), 0])
+                    plan.append(["short", rng.choice([0.15, 0.25, 0.4]), rng.choice([0.05, 0.1]), 0, rng.choice(["id", "id", "zero"])])
                 else:
-                    plan.append(["long", 0, rng.choice([0.03, 0.1, 0.2]), rng.choice([0, 0, 0.2])])
+                    plan.append(["long", 0, rng.choice([0.03, 0.1, 0.2]), rng.choice([0, 0, 0.2]), rng.choice(["id", "zero"])])
             if not any(p[0] == "short" for p in plan):
                 plan[0] = ["short", 0.2, 0.05, 0]
             if not any(p[0] == "long" for p in plan):
                 plan[-1] = ["long", 0, 0.1, 0]
             W = rng.choice([1, 2, 4])
-            mode = ["search", "evaluator", "search_strict", "search", "evaluator", "search_max"][i % 6]
-            c = dict(timeout=T, workers=W, backend=backends[i % len(backends)], plan=plan, mode=mode)
+            mode, backend = pairs[i % len(pairs)]
+            c = dict(timeout=T, workers=W, backend=backend, plan=plan, mode=mode)
             if mode == "evaluator":
                 c["timeout"] = 2  # a job queued at the deadline with a stale budget would run 2 s more: visible beyond the slack
                 c["njobs"] = W + rng.randint(1, 2 * W + 1)
                 # jobs queued behind the workers must not all finish before the deadline: long jobs only
                 c["plan"] = [p for p in plan if p[0] == "long"] * 2 + [["short", 0.3, 0.1, 0]]
+            elif mode == "evtimeout_search":
+                # enough budget left at the expiry that a search which keeps submitting is still doing so 2 s later
+                c["max_evals"] = 400
+                c["plan"] = [p for p in plan if p[0] == "long"]
             elif mode in ("search_strict", "search_max"):
                 c["max_evals"] = rng.choice([W + 1, 2 * W + 1, 3]) if W > 1 else rng.choice([2, 3])
                 c["plan"] = [p for p in plan if p[0] == "long"]  # every job runs until told to cancel
@@ -250,5 +270,6 @@ def gen(count, backends):
 
 def streams(tier):
     th = tier == "thorough"
-    # 7 backends entries x 6 modes: every (backend, mode) pair occurs (7 and 6 are coprime)
-    return [Stream("timeout_searches", gen(84 if th else 21, ["serial", "thread", "process", "serial", "thread", "serial", "thread"]), check, None, timeout=120)]
+    # every (mode, backend) pair occurs: serial and thread twice per round, process once
+    pairs = [(m, b) for b in ("serial", "thread", "process", "thread", "serial") for m in MODES]
+    return [Stream("timeout_searches", gen(100 if th else 25, pairs), check, None, timeout=150)]
